@@ -321,6 +321,8 @@ struct FaultyWriter {
     calls: usize,
     fail_call: Option<usize>,
     budget: Option<usize>,
+    /// a writer that never fails but accepts at most `chunk` bytes per call (a legal short write)
+    chunk: Option<usize>,
     failed: bool,
 }
 impl Write for FaultyWriter {
@@ -340,6 +342,11 @@ impl Write for FaultyWriter {
                 return Err(std::io::Error::new(std::io::ErrorKind::WriteZero, "planned failure"));
             }
             let n = room.min(buf.len());
+            self.accepted.extend_from_slice(&buf[..n]);
+            return Ok(n);
+        }
+        if let Some(c) = self.chunk {
+            let n = c.max(1).min(buf.len());
             self.accepted.extend_from_slice(&buf[..n]);
             return Ok(n);
         }
@@ -446,6 +453,7 @@ fn run_step(
                 calls: 0,
                 fail_call: to.and_then(|x| x.get("fail_call")).and_then(|x| x.as_u64()).map(|x| x as usize),
                 budget: to.and_then(|x| x.get("budget")).and_then(|x| x.as_u64()).map(|x| x as usize),
+                chunk: to.and_then(|x| x.get("chunk")).and_then(|x| x.as_u64()).map(|x| x as usize),
                 failed: false,
             };
             let use_to = to.is_some();
